@@ -1051,8 +1051,9 @@ _GEN = {"param_sets": gen_param, "param_in_reaction": gen_prx,
         "expr_classes": gen_cls, "expr_classes_units_default_backend": lambda seed, i: gen_cls(seed, i, True), "log10_symbolic": gen_log10, "expr_trees": gen_treecase, "massaction_algebra": gen_ma}
 _CHECK = {"param_sets": check_param, "param_in_reaction": check_prx, "param_in_reaction_units_default_backend": check_prx,
           "expr_classes": check_cls, "expr_classes_units_default_backend": check_cls, "log10_symbolic": check_log10, "expr_trees": check_tree, "massaction_algebra": check_ma}
-_N = {"param_sets": (1500, 60000), "param_in_reaction": (1500, 60000), "param_in_reaction_units_default_backend": (300, 6000),
-      "expr_classes": (2200, 88000), "expr_classes_units_default_backend": (660, 13200), "log10_symbolic": (60, 600), "expr_trees": (2400, 100000), "massaction_algebra": (1100, 44000)}
+_N = {"param_sets": (3000, 60000), "param_in_reaction": (3000, 60000), "param_in_reaction_units_default_backend": (600, 6000),
+      "expr_classes": (4400, 88000), "expr_classes_units_default_backend": (1100, 13200), "log10_symbolic": (90, 600),
+      "expr_trees": (4800, 100000), "massaction_algebra": (2200, 44000)}
 _RULE = {
     "param_sets": ("ArrheniusParam(A, Ea) with A 1e-3..1e16, Ea -20..300 kJ/mol (also 0); EyringParam(dH 0..300 kJ/mol, dS -200..200 J/K/mol); "
                    "T 200..2000 K; float mode with backend None/math/numpy/sympy (plus T symbolic under sympy, then substituted) and "
